@@ -44,6 +44,9 @@ class GaussianMixture:
         self.tol = tol
         self.reg_covar = reg_covar
         self.random_state = random_state
+        # Source of randomness for the initialisation: the global stream unless
+        # a random_state is given (then a private generator, see fit())
+        self._rng = np.random
 
         # Fitted parameters
         self.weights_ = None
@@ -92,7 +95,8 @@ class GaussianMixture:
         best_lower_bound = -np.inf
 
         if self.random_state is not None:
-            np.random.seed(self.random_state)
+            # private generator: never reseed the process-wide stream
+            self._rng = np.random.RandomState(self.random_state)
 
         for init in range(self.n_init):
             # Initialize parameters
@@ -141,7 +145,7 @@ class GaussianMixture:
 
         # First center: weighted random sample
         cumsum = np.cumsum(sample_weight)
-        r = np.random.rand() * cumsum[-1]
+        r = self._rng.rand() * cumsum[-1]
         means[0] = X[np.searchsorted(cumsum, r)]
 
         # Remaining centers
@@ -154,7 +158,7 @@ class GaussianMixture:
             probabilities /= np.sum(probabilities)
 
             cumsum = np.cumsum(probabilities)
-            r = np.random.rand() * cumsum[-1]
+            r = self._rng.rand() * cumsum[-1]
             means[k] = X[np.searchsorted(cumsum, r)]
 
         # Initialize responsibilities and compute initial parameters
